@@ -99,6 +99,9 @@ Definition min_version (k : akind) : Z :=
   | _ => 10
   end.
 
+(* KmipEngine._protocol_versions: a constant of the engine, newest first *)
+Definition server_versions : list Z := [20; 14; 13; 12; 11; 10].
+
 Inductive op :=
 | OCreate (pol : Z)                         (* symmetric key; pol = Operation Policy Name of the template *)
 | OCreateKeyPair (pol : Z)                  (* public key first, then private key *)
@@ -107,7 +110,9 @@ Inductive op :=
 | ODestroy (tgt : option Z)
 | OAddr (k : akind) (tgt : option Z)
 | OGetWrapped (tgt : option Z) (w : Z)      (* Get with a key wrapping specification naming encryption key w *)
-| OLocate.
+| OLocate
+| ODiscover (vs : list Z)                   (* DiscoverVersions; vs = the versions the client lists, [] = no list *)
+| OQuery.
 
 Record item := { i_op : op; i_gate : bool }.
 
@@ -121,7 +126,8 @@ Inductive resp :=
 | RRefused                    (* Destroy reached the object and refused (Active) *)
 | RWrapNotFound               (* ITEM_NOT_FOUND "Wrapping key does not exist." *)
 | RLocated (ids : list Z)     (* ascending *)
-| RNotSupported.              (* OPERATION_NOT_SUPPORTED by the protocol version *)
+| RNotSupported               (* OPERATION_NOT_SUPPORTED by the protocol version *)
+| RVersions (vs : list Z).    (* DiscoverVersions answer, server preference order *)
 
 Definition mk (u who : Z) (t : otype * Z) : obj := {| uid := u; owner := user_of who; oty := fst t; opol := snd t |}.
 
@@ -198,12 +204,19 @@ Definition step_item (ver who : Z) (st : store) (ph : option Z) (it : item) : re
                  end
       end
   | OLocate => (RLocated (map uid (filter (permitted who PLocate) (objs st))), st, ph)
+  | ODiscover vs =>
+      if ver <? 11 then (RNotSupported, st, ph)
+      else (RVersions (match vs with
+                       | [] => server_versions
+                       | _ => filter (fun v => existsb (Z.eqb v) vs) server_versions
+                       end), st, ph)
+  | OQuery => (RFound, st, ph)
   end.
 
 (* did the batch item fail (decides Stop)? *)
 Definition failed (it : item) (r : resp) : bool :=
   match r with
-  | RIssued _ | RDestroyed | RLocated _ => false
+  | RIssued _ | RDestroyed | RLocated _ | RVersions _ => false
   | RFound => negb (i_gate it)
   | _ => true
   end.
